@@ -24,14 +24,15 @@ ENUM = {
     "quick": [dict(module="MC_Detection", cfg="MC_Detection_quick.cfg", workers=12),
               dict(module="MC_Detection", cfg="MC_Detection_clips.cfg", workers=4)],
     "thorough": [dict(module="MC_Detection", cfg="MC_Detection_thorough.cfg", workers=16, coverage=True),
+                 dict(module="MC_Detection", cfg="MC_Detection_thorough_rich.cfg", workers=16, coverage=True),
                  dict(module="MC_Detection", cfg="MC_Detection_clips.cfg", workers=4, coverage=True)],
 }
 POOL = 12
 CHUNK = 1000
 UNITS = [1.0, 0.25]
 RULE = ("one call of sound_event_detection per case and exact unit: an anchor clip plus one clip with every arrangement of "
-        "<= 2 annotated x <= 2 predicted events (geometry none / 3 boxes, class A / B / none, three score vectors; "
-        "<= 3 events quick, <= 4 thorough), every order and membership of three clips in the two input lists, and random "
+        "<= 2 annotated x <= 2 predicted events (geometry none / 3 boxes, class A / B / none, two score vectors; "
+        "<= 3 events quick, <= 4 thorough, plus a touching box and four score vectors with <= 3 events thorough), every order and membership of three clips in the two input lists, and random "
         "runs (<= 4 clips, <= 4 events a side, all geometry kinds, vocabulary of 2..4 tags); non-trivial = some evaluated clip "
         "has both annotated and predicted events")
 TRUSTED_BASE = ["checks/c08.py (build recording / clips / sound events / tags, call sound_event_detection, map the uuids in "
